@@ -170,7 +170,7 @@ def replay_literal(body, q, sname):
 
 
 LITERALS = ["plain", "it's", 'say "hi"', "both ' and \"", "\\'", '\\"', "a\\\\", "a\\\\'", "tab\\tnew\\n", "\\65\\066\\0671", "\\x41\\x7a", "\\u{48}\\u{20AC}", "\\z  x",
-            "C\\'est \u00e7a", "\u2192\\n", '\u65e5\u672c \\"\u8a9e\\"', "\u00e9\\\\", "na\u00efve 'q'", "\\a\\b\\f\\v\\r", "\\d\\e\\-", ""]
+            "C\\'est \u00e7a", "\u2192\\n", '\u65e5\u672c \\"\u8a9e\\"', "\u00e9\\\\", "na\u00efve 'q'", "\\a\\b\\f\\v\\r", "\\d\\e\\-", "", "line1\\\nline2", "line1\\\rline2", "line1\\\r\nline2"]
 
 
 def literal_battery():
@@ -221,7 +221,12 @@ def confirm(rep, oid, m, lit, qin, style, SI, kind):
     v, rec = replay_literal(body, q, sname)
     rep.samples.append({"model": {"body": body, "quote": q, "style": sname}, "replay": v})
     if v is None:
-        rep.add(oid, "inconclusive", f"solver model {q}{body!r}{q} ({sname}) did not reproduce on the native build: {rec}")
+        # the encoding may have lost track of a rewritten implementation: the literal battery (every escape kind) is the second opinion
+        hit = literal_battery()
+        if hit:
+            rep.add(oid, rep.violation({"obligation": oid, "kind": "battery"}, {"what": f"solver model {q}{body!r}{q} ({sname}) did not reproduce; literal battery: {hit[0]}", **hit[1]}), hit[0])
+        else:
+            rep.add(oid, "inconclusive", f"solver model {q}{body!r}{q} ({sname}) did not reproduce on the native build: {rec}")
         return
     role = {"obligation": oid, "skeleton": role_of(body)}
     status = rep.violation(role, {"body": body, "quote": q, "style": sname, "observed": v, **rec})
